@@ -253,7 +253,7 @@ class C07(Profile):
             return finish_cfg(gen_echo_case(rng, tier, backends=bk), rng)
         if r < 0.7:
             case = gen_input_case(rng, tier, backends=bk)
-            case['family'] = 'inputs'
+            case.setdefault('family', 'inputs')
         elif r < 0.85:
             case = gen_concurrent_case(rng, tier, backends=bk)
             case['family'] = 'concurrent'
@@ -264,7 +264,7 @@ class C07(Profile):
 
     def run(self, case, trace=False):
         fam = case.get('family', 'echo')
-        if fam == 'inputs':
+        if fam in ('inputs', 'sieve'):
             res = run_inputs(case, trace, keep_all=True)
         elif fam in ('concurrent', 'model'):
             res = run_concurrent(case, 'C07', trace)
